@@ -22,7 +22,7 @@ import z3
 
 from pyvc.contract import ContractSet, LoopSpec
 from pyvc.vals import *       # noqa
-from pyvc.ctx import Unsupported
+from pyvc.ctx import Unsupported, SpecError
 from . import common
 from .common import emit, events_named
 
@@ -191,6 +191,11 @@ def build():
 
     def acquire(I, env, a, k):
         # acquire() returns only once the lock is free (whoever held it has released it)
+        fc0 = I.frames[0].fc
+        if fc0 is not None and fc0.key == "BallCountHandler._run":
+            this = I.frames[0].env["self"].ref
+            rely_unlocked(I)
+            I.__dict__["c04_at_lock"] = I.read_field(this, "_ball_count")
         I.write_field(env["self"].ref, "locked", VBool(True))
         emit(I, "lock.acquire")
         return VBool(True)
@@ -342,20 +347,119 @@ def build():
     C.fn("BallCountHandler._handle_missing_balls", params=dict(new_balls=Int, missing_balls=Int),
          requires=[("called by _run under the counting lock with the new, lower count",
                     "missing_balls >= 1 and new_balls >= 0 and self._ball_count == new_balls + missing_balls"),
-                   ("ghost counters start at zero", "ghost.n_lost_idle == 0 and ghost.n_mech == 0")],
+                   ],
          loops_by_text={"range(missing_balls": LoopSpec(
-             invariant=[("one lost-ball report per ball so far", "ghost.n_lost_idle == _ and ghost.n_mech == 0")],
+             invariant=[("one lost-ball report per ball so far", "ghost.n_lost_idle == old_loop(ghost.n_lost_idle) + _ "
+                                                                 "and ghost.n_mech == old_loop(ghost.n_mech)")],
              modifies=["ghost.n_lost_idle"], roles={"_": "counter"})},
          ensures=[("M1 conservation: when the handled count of an idle device is lowered, every missing ball is "
                    "reported as lost exactly once (it is added to the playfield count), or - mechanical eject - the "
                    "eject is handed to the device",
                    "implies(self._ball_count != old(self._ball_count), self._ball_count == new_balls and "
-                   "((ghost.n_lost_idle == missing_balls and ghost.n_mech == 0) or "
-                   "(ghost.n_mech == 1 and ghost.n_lost_idle == 0 and self.ball_device.config['mechanical_eject'])))"),
+                   "(((ghost.n_lost_idle - old(ghost.n_lost_idle)) == missing_balls and (ghost.n_mech - old(ghost.n_mech)) == 0) or "
+                   "((ghost.n_mech - old(ghost.n_mech)) == 1 and (ghost.n_lost_idle - old(ghost.n_lost_idle)) == 0 and self.ball_device.config['mechanical_eject'])))"),
                   ("M2: while the count is kept (ejecting, or activity seen: recount) no ball is reported lost",
-                   "implies(self._ball_count == old(self._ball_count), ghost.n_lost_idle == 0 and ghost.n_mech == 0)")],
+                   "implies(self._ball_count == old(self._ball_count), (ghost.n_lost_idle - old(ghost.n_lost_idle)) == 0 and (ghost.n_mech - old(ghost.n_mech)) == 0)")],
          modifies=CM + ["ghost.n_lost_idle", "ghost.n_mech", "self._revalidate.flag"],
          raises={"CancelledError": "self.counter is None"}, bounded="BOUNDED: at most 2 waiting futures")
+    # ---- the counting loop: every change the counter reports is turned into arrivals / lost balls, under the lock
+    C.ghost.update(dict(n_arrived=Int))
+
+    def rely_unlocked(I):
+        """before the counting lock is held other tasks of the device may eject / count (start_eject, end_eject take
+        the lock): the handled count may change"""
+        saved = I.modified
+        I.modified = set()
+        try:
+            this = I.frames[0].env["self"].ref
+            I.havoc_field(this, "_ball_count")
+            I.ctx.assume(I.force(I.read_field(this, "_ball_count")).t >= 0)
+        finally:
+            I.rely_modified |= I.modified
+            I.modified = saved
+
+    def await_point(I):
+        """an await inside _run: stop() cancels THIS task (CancelledError is thrown into the await) before it drops
+        the counter, so the counter is never None while _run goes on; while the counting lock is not held other
+        tasks may change the handled count"""
+        this = I.frames[0].env["self"].ref
+        if I.ctx.fork(2) == 1:
+            I.raise_("CancelledError", "task cancelled by stop()")
+        lk = I.force(I.read_field(this, "_is_counting")).ref
+        if not I.ctx.branch(I.truth(I.read_field(lk, "locked"))):
+            rely_unlocked(I)
+    C.cls("ChangeStream", fields={})
+    C.ext("ChangeStream.get", model=lambda I, env, a, k: VOpaque("Any", z3.Const(I.fresh_name("change"), usort("Any"))),
+          trusted_reason="asyncio.Queue of counter activities")
+    C.ext("PhysicalBallCounter.register_change_stream",
+          model=lambda I, env, a, k: VObj(Obj("ChangeStream", ObjS("ChangeStream", {}), I.fresh_name("changes"))),
+          trusted_reason="counter: a queue that receives every ball activity")
+
+    def count_balls(I, env, a, k):
+        await_point(I)
+        n = z3.Int(I.fresh_name("counted"))
+        I.ctx.assume(n >= 0)
+        return VInt(n)
+    C.ext("PhysicalBallCounter.count_balls", model=count_balls,
+          trusted_reason="counter: waits until the count is stable and returns it (>= 0); counters are only partly "
+                         "under contract (EntranceSwitchCounter: set C04c)")
+    C.ext("PhysicalBallCounter.is_count_unreliable",
+          model=lambda I, env, a, k: VBool(z3.Bool(I.fresh_name("unreliable"))), trusted_reason="counter: jam detection")
+    C.cls("Ejector", fields={})
+    C.ext("Ejector.reorder_balls", model=lambda I, env, a, k: (await_point(I), NONE)[1],
+          trusted_reason="ejector: pulses to reorder jammed balls")
+    C.classes["BallDevice"].fields["ejector"] = ObjS("Ejector")
+    DEV.fields["ejector"] = ObjS("Ejector")
+    C.classes["BallCountHandler"].fields["_count_valid"] = ObjS("AsyncEvent")
+    C.ext("AsyncEvent.wait", model=lambda I, env, a, k: VOpaque("Any", z3.Const(I.fresh_name("waiter"), usort("Any"))),
+          trusted_reason="asyncio.Event.wait(): a coroutine object, awaited through Util.first")
+    C.globals["asyncio.ensure_future"] = VFn("model", model=lambda I, a, k: a[0])
+    C.globals["Util"] = VCls("Util")
+    C.globals["Util.first"] = VFn("model", model=lambda I, a, k: (await_point(I), NONE)[1])
+
+    def arrived(I, env, a, k):
+        emit(I, "ball_arrived")
+        fc0 = I.frames[0].fc
+        if fc0 is not None and fc0.key == "BallCountHandler._run":
+            I.write_field(I.ghost, "n_arrived", VInt(I.force(I.read_field(I.ghost, "n_arrived")).t + 1))
+            await_point(I)
+        return NONE
+    C.ext("IncomingBallsHandler.ball_arrived", model=arrived,
+          trusted_reason="incoming balls handler: matches ONE arrival to an expected ball or reports it unexpected")
+    C.fn("BallCountHandler._run",
+         requires=[("the task starts without the counting lock", "not self._is_counting.locked")],
+         loops_by_text={
+             "True": LoopSpec(
+                 invariant=[("the counting lock is free between passes", "not self._is_counting.locked")],
+                 modifies=CM + ["self._is_counting.locked", "self._revalidate.flag", "self._count_valid.flag",
+                                "self.counter", "ghost.n_arrived", "ghost.n_lost_idle", "ghost.n_mech"],
+                 body_ensures=[
+                     ("R1: a pass that finds MORE balls than handled raises the handled count to the counted number "
+                      "and reports exactly that many arrivals; otherwise it reports none",
+                      "ghost.n_arrived - old_iter(ghost.n_arrived) == (self._ball_count - at_lock_count() if "
+                      "self._ball_count > at_lock_count() else 0)"),
+                     ("R2: the counting lock taken by a pass is released at its end and the count is declared valid",
+                      "not self._is_counting.locked and self._count_valid.flag"),
+                     ("R3: a pass lowers the handled count only through _handle_missing_balls (lost-ball reports: "
+                      "clause M1), never silently",
+                      "implies(self._ball_count < at_lock_count(), (ghost.n_lost_idle - old_iter(ghost.n_lost_idle)) "
+                      "+ (ghost.n_mech - old_iter(ghost.n_mech)) >= 1)")]),
+             "range(new_balls": LoopSpec(
+                 invariant=[("one arrival reported per new ball so far", "ghost.n_arrived == old_loop(ghost.n_arrived) + _"),
+                            ("the lock stays with this task", "self._is_counting.locked")],
+                 modifies=["ghost.n_arrived", "self.counter"], roles={"_": "counter"})},
+         modifies=CM + ["self._is_counting.locked", "self._revalidate.flag", "self._count_valid.flag", "self.counter",
+                        "ghost.n_arrived", "ghost.n_lost_idle", "ghost.n_mech"],
+         raises={"CancelledError": True},
+         bounded="BOUNDED: at most 2 waiting futures")
+
+    def at_lock_count(I):
+        """the handled count at the moment this pass took the counting lock (recorded by the lock model)"""
+        v = I.__dict__.get("c04_at_lock")
+        if v is None:
+            raise SpecError("no lock acquisition on this path")
+        return v
+    C.helpers["at_lock_count"] = at_lock_count
     C.fn("BallCountHandler.is_full", is_property=True, result=Bool,
          ensures=["result == (self.counter.capacity - self._ball_count <= 0)"], modifies=[],
          raises={"CancelledError": "self.counter is None"})
